@@ -339,3 +339,138 @@ func randomRenew(r *lib.Rand) NScenario {
 	}
 	return sc
 }
+
+// ---- trust-anchor source (trustanchors.FromFile)
+
+// taFirstCallOrders: every order of the first calls {run, file, bundle×a, anchors×b, watch×c}.
+func taFirstCallOrders(a, b, c int) [][]string {
+	var out [][]string
+	var rec func(cur []string, run, file bool, a, b, c int)
+	rec = func(cur []string, run, file bool, a, b, c int) {
+		if run && file && a == 0 && b == 0 && c == 0 {
+			out = append(out, append([]string(nil), cur...))
+			return
+		}
+		if !run {
+			rec(append(cur, "run"), true, file, a, b, c)
+		}
+		if !file {
+			rec(append(cur, "file"), run, true, a, b, c)
+		}
+		if a > 0 {
+			rec(append(cur, "bundle"), run, file, a-1, b, c)
+		}
+		if b > 0 {
+			rec(append(cur, "anchors"), run, file, a, b-1, c)
+		}
+		if c > 0 {
+			rec(append(cur, "watch"), run, file, a, b, c-1)
+		}
+	}
+	rec(nil, false, false, a, b, c)
+	return out
+}
+
+// taBuild: the first calls in the given order (first file version 1, or garbage), then — if the
+// source came up — an update, a reader, the end of Run, a reader after the end.
+func taBuild(order []string, good bool) TScenario {
+	var sc TScenario
+	for _, o := range order {
+		if o == "file" {
+			v := 1
+			if !good {
+				v = 0
+			}
+			sc.Ops = append(sc.Ops, TOp{Op: "file", V: v})
+		} else {
+			sc.Ops = append(sc.Ops, TOp{Op: o})
+		}
+	}
+	sc.Ops = append(sc.Ops, TOp{Op: "q"})
+	if good {
+		sc.Ops = append(sc.Ops, TOp{Op: "file", V: 2}, TOp{Op: "bundle"}, TOp{Op: "q"})
+	}
+	sc.Ops = append(sc.Ops, TOp{Op: "stop"}, TOp{Op: "anchors"}, TOp{Op: "bundle"})
+	return sc
+}
+
+func tops(s ...string) TScenario {
+	var sc TScenario
+	for _, w := range s {
+		switch {
+		case len(w) == 5 && w[:4] == "file":
+			sc.Ops = append(sc.Ops, TOp{Op: "file", V: int(w[4] - '0')})
+		case len(w) == 7 && w[:6] == "cancel":
+			sc.Ops = append(sc.Ops, TOp{Op: "cancel", I: int(w[6] - '0')})
+		default:
+			sc.Ops = append(sc.Ops, TOp{Op: w})
+		}
+	}
+	return sc
+}
+
+func specialTA() []TScenario {
+	return []TScenario{
+		tops("bundle", "anchors", "q"),                         // Run never called: the calls legitimately wait
+		tops("bundle", "anchorsc", "cancel1", "q"),             // … only the ctx ends one of them
+		tops("run", "bundle", "anchors", "q", "stop"),          // file never appears: Run ends with an error, closeCh releases the readers
+		tops("run", "bundle", "q", "file1", "q", "file2", "q", "file3", "bundle", "q"),
+		tops("file1", "run", "watch", "watch", "bundle", "q", "file2", "q", "anchors", "file0", "q", "bundle", "anchors"),
+		tops("watch", "bundle", "run", "file0", "q", "anchors"), // garbage as first content: Run returns an error
+		tops("file1", "run", "q", "stop", "bundle", "anchors", "bundle", "anchors"),
+		tops("file1", "run", "anchorsc", "q", "cancel0", "stop"),
+	}
+}
+
+func randomTA(r *lib.Rand) TScenario {
+	var sc TScenario
+	n := r.Range(4, 10)
+	run, stopped := false, false
+	ncons := 0
+	var ctxs []int
+	ver := 0
+	for i := 0; i < n; i++ {
+		switch r.Intn(9) {
+		case 0:
+			if !run && !stopped {
+				sc.Ops = append(sc.Ops, TOp{Op: "run"})
+				run = true
+			}
+		case 1, 2:
+			sc.Ops = append(sc.Ops, TOp{Op: "bundle"})
+			ncons++
+		case 3:
+			sc.Ops = append(sc.Ops, TOp{Op: "anchors"})
+			ncons++
+		case 4:
+			sc.Ops = append(sc.Ops, TOp{Op: "anchorsc"})
+			ctxs = append(ctxs, ncons)
+			ncons++
+		case 5:
+			sc.Ops = append(sc.Ops, TOp{Op: "watch"})
+			ncons++
+		case 6:
+			if r.Intn(6) == 0 {
+				sc.Ops = append(sc.Ops, TOp{Op: "q"}, TOp{Op: "file", V: 0}, TOp{Op: "q"})
+			} else if ver < 3 {
+				ver++
+				sc.Ops = append(sc.Ops, TOp{Op: "q"}, TOp{Op: "file", V: ver}, TOp{Op: "q"})
+			}
+		case 7:
+			if len(ctxs) > 0 {
+				j := r.Intn(len(ctxs))
+				sc.Ops = append(sc.Ops, TOp{Op: "cancel", I: ctxs[j]})
+				ctxs = append(ctxs[:j], ctxs[j+1:]...)
+			}
+		case 8:
+			if run && !stopped && r.Intn(3) == 0 {
+				sc.Ops = append(sc.Ops, TOp{Op: "q"}, TOp{Op: "stop"})
+				stopped = true
+			}
+		}
+	}
+	if !run && !stopped {
+		sc.Ops = append(sc.Ops, TOp{Op: "run"})
+	}
+	return sc
+}
